@@ -388,10 +388,8 @@ func checkC02(c *Ctx, w *World) {
 				if rng == nil || !isLoadOf(rng.X, "gcpBalancer.scStates") {
 					good = false
 				}
-				isVal := func(v ssa.Value) bool {
-					e, ok := stripConv(v).(*ssa.Extract)
-					return ok && e.Tuple == nx && e.Index == 2
-				}
+				// the entry's state: the scan's value, or the table read under the scan's key
+				isVal := (&rangeLoop{Next: nx, Range: rng}).val
 				cs := newCondSpace(rp, recOf(eqAtom("ready", isVal, constIs(pl.Ready))), "ready")
 				imp, wit := cs.Implies(cs.Reach(call), cs.Atom("ready"))
 				if !imp {
